@@ -22,6 +22,8 @@ Record tctx := mkCtx { inside_loop : bool; inside_pure : bool }.
 Definition ctx_new := mkCtx false false.
 Definition enter_loop (c : tctx) := mkCtx true (inside_pure c).
 Definition enter_pure (c : tctx) := mkCtx (inside_loop c) true.
+(* the condition of a loop is not part of its body: `TypeCtx { inside_loop: false, ..ctx }` (since fcfe8d3) *)
+Definition leave_loop (c : tctx) := mkCtx false (inside_pure c).
 (* entering the body of a function expression: `TypeCtx { inside_loop: false, ..ctx }`, then enter_pure for `pu` *)
 Definition enter_fn (pure : bool) (c : tctx) :=
   let c := mkCtx false (inside_pure c) in if pure then enter_pure c else c.
@@ -885,7 +887,7 @@ Section WithVars.
       unify_option G sp e_ret t_ret
     | SDefinition _ var kind t value sp => definition R var kind t value sp ctx
     | SLoop condition body sp =>
-      '(r, c) <- r_expr R condition ctx ;;
+      '(r, c) <- r_expr R condition (leave_loop ctx) ;;
       boolean <- push_type HBool ;;
       unify G sp boolean c ;;;
       '(body_ret, _) <- expression_block R sp body (enter_loop ctx) ;;
